@@ -19,7 +19,7 @@ from harness import text as T
 from harness import textcheck as TC
 from props import _text as X
 
-PROPS = ["Octave.Props.C01", "Octave.Props.C01flat", "Octave.Props.C01roundtrip", "Octave.Props.C01blocks", "Octave.Props.C01tree", "Octave.Props.C01comments", "Octave.Props.C01meta", "Octave.Props.C01sections", "Octave.Props.C01lists", "Octave.Props.C01ctree", "Octave.Props.C01unified", "Octave.Props.C01document"]
+PROPS = ["Octave.Props.C01", "Octave.Props.C01flat", "Octave.Props.C01roundtrip", "Octave.Props.C01blocks", "Octave.Props.C01tree", "Octave.Props.C01comments", "Octave.Props.C01meta", "Octave.Props.C01sections", "Octave.Props.C01lists", "Octave.Props.C01ctree", "Octave.Props.C01unified", "Octave.Props.C01document", "Octave.Props.C01master"]
 
 NUMBER_RE = re.compile(r"-?\d+\.?\d*(?:[eE][+-]?\d+)?")
 
@@ -114,12 +114,32 @@ def kf_cr_in_string_via_file(case) -> bool:
     return case.get("entry") in ("tools", "cli") and "\r" in case["text"]
 
 
-def write_then_normalize(text):
+def kf_unlexable_frontmatter_via_strict_write(case) -> bool:
+    """C01N8: the route goes through the tools AND the text opens with a YAML frontmatter block (`---` ... `---`) that the OCTAVE
+    lexer refuses when it is read as OCTAVE text (parentheses, ...): octave_write's strict path lexes the raw content, frontmatter
+    included, before the reader strips it."""
+    if case.get("entry") != "tools":
+        return False
+    lines = case["text"].split("\n")
+    if not case["text"].startswith("---") or lines[0].strip() != "---":
+        return False
+    for i in range(1, len(lines)):
+        if lines[i].strip() == "---":
+            from octave_mcp.core.lexer import LexerError, tokenize
+            try:
+                tokenize("\n".join(lines[: i + 1]) + "\n")
+            except LexerError:
+                return True
+            return False
+    return False
+
+
+def write_then_normalize(text, lenient=False):
     """the file route of C01 on one text: octave_write(content) then octave_write(normalize); why or None."""
     from octave_mcp.mcp.write import WriteTool
     with tempfile.TemporaryDirectory() as td:
         p = os.path.join(td, "w.oct.md")
-        w1 = asyncio.run(WriteTool().execute(target_path=p, content=text))
+        w1 = asyncio.run(WriteTool().execute(target_path=p, content=text, lenient=lenient))
         if w1.get("status") != "success":
             return None
         w2 = asyncio.run(WriteTool().execute(target_path=p))
@@ -130,7 +150,7 @@ def write_then_normalize(text):
     return None
 
 
-CLASSES = {"kf_cr_in_string_via_file": kf_cr_in_string_via_file, "kf_zone_in_meta": kf_zone_in_meta, "kf_zone_in_list": kf_zone_in_list, "kf_body_node_keyed_meta": kf_body_node_keyed_meta, "kf_nested_inline_map": kf_nested_inline_map,
+CLASSES = {"kf_unlexable_frontmatter_via_strict_write": kf_unlexable_frontmatter_via_strict_write, "kf_cr_in_string_via_file": kf_cr_in_string_via_file, "kf_zone_in_meta": kf_zone_in_meta, "kf_zone_in_list": kf_zone_in_list, "kf_body_node_keyed_meta": kf_body_node_keyed_meta, "kf_nested_inline_map": kf_nested_inline_map,
            "kf_frontmatter_with_sentinel": kf_frontmatter_with_sentinel,
            "kf_holographic": kf_holographic}
 
@@ -149,7 +169,8 @@ def oracle(r):
 
 
 def tool_roundtrip(ctx, texts, findings):
-    """octave_validate(content=x).canonical fed back; octave_write(content=x) then normalize."""
+    """octave_validate(content=x).canonical fed back to octave_validate AND to octave_write (strict reader);
+    octave_write(content=x, lenient=false/true) then normalize."""
     from octave_mcp.mcp.validate import ValidateTool
     from octave_mcp.mcp.write import WriteTool
     with tempfile.TemporaryDirectory() as td:
@@ -166,16 +187,23 @@ def tool_roundtrip(ctx, texts, findings):
                     elif v2.get("canonical") != c1:
                         X.classify(ctx, findings, CLASSES, case, "octave_validate.canonical is not a fixed point", "validate-not-idempotent",
                                    {"c1": c1, "c2": v2.get("canonical")})
-                p = os.path.join(td, f"w{i}.oct.md")
-                w1 = asyncio.run(WriteTool().execute(target_path=p, content=x))
-                if w1.get("status") == "success":
-                    h1 = w1.get("canonical_hash")
-                    w2 = asyncio.run(WriteTool().execute(target_path=p))  # normalize mode
-                    if w2.get("status") != "success":
-                        X.classify(ctx, findings, CLASSES, case, f"octave_write normalize fails on the file octave_write wrote: {TC.short(w2.get('errors'))}", "write-normalize-fails")
-                    elif w2.get("canonical_hash") != h1:
-                        X.classify(ctx, findings, CLASSES, case, "octave_write normalize changes a file octave_write just wrote", "write-normalize-changes",
-                                   {"diff": TC.short(w2.get("diff"))})
+                    # ... and the canonical text one tool returns is readable by the other (octave_write reads strictly by default)
+                    w0 = asyncio.run(WriteTool().execute(target_path=os.path.join(td, f"v{i}.oct.md"), content=c1))
+                    if w0.get("status") != "success":
+                        X.classify(ctx, findings, CLASSES, case, f"octave_write refuses the canonical text octave_validate returned: {TC.short(w0.get('errors'))}", "write-rejects-validate-canonical",
+                                   {"c1": c1})
+                for lenient in (False, True):
+                    p = os.path.join(td, f"w{i}{'l' if lenient else ''}.oct.md")
+                    w1 = asyncio.run(WriteTool().execute(target_path=p, content=x, lenient=lenient))
+                    if w1.get("status") == "success":
+                        h1 = w1.get("canonical_hash")
+                        w2 = asyncio.run(WriteTool().execute(target_path=p))  # normalize mode
+                        c2 = dict(case, lenient=lenient)
+                        if w2.get("status") != "success":
+                            X.classify(ctx, findings, CLASSES, c2, f"octave_write normalize fails on the file octave_write(lenient={lenient}) wrote: {TC.short(w2.get('errors'))}", "write-normalize-fails")
+                        elif w2.get("canonical_hash") != h1:
+                            X.classify(ctx, findings, CLASSES, c2, f"octave_write normalize changes a file octave_write(lenient={lenient}) just wrote", "write-normalize-changes",
+                                       {"diff": TC.short(w2.get("diff"))})
             except BaseException as e:  # noqa: BLE001
                 X.classify(ctx, findings, CLASSES, case, f"tool raised {type(e).__name__}: {str(e)[:100]}", "tool-raises")
 
@@ -203,8 +231,10 @@ def cli_roundtrip(ctx, texts, findings):
 
 
 def run(ctx: vlib.Ctx):
-    ctx.rule = ("content-model documents (canonical + one seeded lenient spelling each), every OCTAVE document shipped in the repo, "
-                "`K::`+every token sequence of length <=2 (thorough 3) over a 33-symbol token alphabet at top level and as a block child, "
+    ctx.rule = ("content-model documents (canonical + one seeded lenient spelling each), fixed families of content-model documents (expressions with "
+                "two or more tension operators in every position; strings beginning/ending with a line break, blank or tab; runs of empty lists; deep "
+                "lists) in canonical, corner and seeded spellings, every OCTAVE document shipped in the repo, "
+                "`K::`+every token sequence of length <=2 (thorough 3) over a 38-symbol token alphabet (incl. non-ASCII digits of categories No, Nd, Nl) at top level and as a block child, "
                 "seeded span mutations of corpus and generated texts; non-trivial = accepted by the lenient reader; distinct = distinct text")
     proj = X.setup(ctx, PROPS)
     findings = vlib.load_findings(ctx.prop)
@@ -217,6 +247,17 @@ def run(ctx: vlib.Ctx):
     results = []
     for r in docs:
         results += [r["c"], r["l"]]
+    # fixed families (docgen.family_docs): chained tensions, strings with layout characters at their ends, runs of empty lists,
+    # deep lists - each in its canonical spelling, the deterministic corners of the spelling space and two seeded spellings
+    fargs = TC.family_args(ctx.seed)
+    fam = [r for ch in vlib.pmap(TC.family_chunk, [fargs[i:i + 8] for i in range(0, len(fargs), 8)], chunksize=1) for r in ch]
+    fam_tool_texts = []
+    for r in fam:
+        for s in r["spellings"]:
+            texts.append(s["text"]); results.append(s["ev"])
+            ctx.count("family:" + r["family"])
+        if r["family"] in ("chained-tension", "edge-strings"):
+            fam_tool_texts += [r["spellings"][0]["text"], r["spellings"][1]["text"]]
     corpus = X.corpus_texts()
     seqs = TC.token_sequences(3 if (ctx.thorough or ctx.widen > 1) else 2, rng, sample=None if ctx.thorough else 12000)
     muts = []
@@ -235,7 +276,7 @@ def run(ctx: vlib.Ctx):
     for f in findings:
         w = f["witness"]
         if w.get("entry") == "tools":
-            why = write_then_normalize(w["text"])
+            why = write_then_normalize(w["text"], lenient=bool(w.get("lenient")))
             if why:
                 ctx.known_reproduced.append((f, why))
             else:
@@ -278,8 +319,8 @@ def run(ctx: vlib.Ctx):
     ctx.extra["accepted_fraction"] = round(n_acc / max(1, len(texts)), 3)
     # tools and CLI
     accepted_texts = [x for x, r in zip(texts, results) if "c1" in r]
-    tool_roundtrip(ctx, rng.sample(accepted_texts, min(len(accepted_texts), ctx.budget(150, 3000))), findings)
+    tool_roundtrip(ctx, rng.sample(accepted_texts, min(len(accepted_texts), ctx.budget(150, 3000))) + fam_tool_texts, findings)
     if ctx.thorough:
-        cli_roundtrip(ctx, rng.sample(accepted_texts, min(len(accepted_texts), 150)), findings)
+        cli_roundtrip(ctx, rng.sample(accepted_texts, min(len(accepted_texts), 150)) + fam_tool_texts[1::2], findings)
     ctx.assumptions = ["Env (NFC, Unicode classes, repr(float)) supplied per case from the running CPython",
                        "proved for all inputs of each class (the Props modules listed under coverage.theorems): the document-level round trip (emit -> strict read -> same document -> same bytes) for flat documents, nested blocks, META + trees, sections, expressions, list values, commented trees; mixtures outside the listed classes, floats inside documents, inline maps, holographic values, zones in lists/META are decided by the exhaustive/seeded correspondence and the oracle on the real code"]
